@@ -127,7 +127,7 @@ def xz_subjects(rng, quick, n_random, n_mut):
     # single-rule violations (glue overrides)
     faults = GS.crafted_xz_faults(rng)
     if quick:
-        faults = [faults[0]] + rng.sample(faults[1:], 22)
+        faults = [faults[0]] + rng.sample(faults[1:], 16)
     for name, desc, verdict in faults:
         f, fmap = GX.build(desc)
         b = fmap_bounds(fmap)
@@ -162,7 +162,7 @@ def tests_files(rng, quick):
     if quick:
         must = [x for x in picks if x in ("good-known_size-with_eopm.lzma", "good-1-block_header-2.xz", "good-1-v1.lz")]
         rest = [x for x in picks if x not in must]
-        picks = must + rng.sample(rest, min(22, len(rest)))
+        picks = must + rng.sample(rest, min(15, len(rest)))
     for nm in picks:
         data = open(os.path.join(d, nm), "rb").read()
         cls = "testfile:" + nm
